@@ -74,6 +74,8 @@ def gen_case(rng, nmax):
     c = {"n": n, "p": p, "cost": cost, "mode": mode, "kind": kind, "X": X,
          # argument form of a fixed parameter, and whether the scorer was fitted before on the same array object holding other values
          "form": rng.choice(["float", "float", "int", "npint", "list"]), "refit": rng.choice([None, None, "same-object", "other-object"])}
+    if kind == "int":  # whole-number data are also passed in integer dtypes (a fixed mean may still be fractional)
+        c["xdtype"] = rng.choice(["float", "int64", "int32"])
     if mode == "fixed":
         percol = rng.random() < 0.5
         mean = [rng.randint(-2, 2) / 2 for _ in range(p)] if percol else rng.randint(-2, 2) / 2
@@ -131,18 +133,18 @@ def mk_cost(case):
 
 
 def impl(case):
-    X = np.array(case["X"], dtype=float)
+    X = np.array(case["X"], dtype={"int64": np.int64, "int32": np.int32}.get(case.get("xdtype"), float))
     n = case["n"]
     try:
         sc = mk_cost(case)
         if case.get("refit") == "same-object":  # fit, replace the contents of that very array in place, fit again
-            Z = X[::-1] * 3.0 - 1.0
+            Z = (X[::-1] * 3 - 1).astype(X.dtype)
             Z.setflags(write=True)
             sc.fit(Z)
             Z[...] = X
             X = Z
         elif case.get("refit") == "other-object":
-            sc.fit(X[::-1] * 3.0 - 1.0)
+            sc.fit((X[::-1] * 3 - 1).astype(X.dtype))
         X0 = X.copy()
         sc.fit(X)
         ms = int(sc.min_size)
